@@ -110,7 +110,12 @@ type Persist struct {
 	WALAcked   []consensus.WALMessage
 	WALAckedBy []int
 	boots      int
+	// Heard: every vote of another validator handed to the node, over all incarnations, interleaved with SignLog by Seq
+	Heard []HeardVote
+	seq   int
 }
+
+func (p *Persist) nextSeq() int { p.seq++; return p.seq }
 
 type SignRec struct {
 	Inc       int
@@ -125,6 +130,13 @@ type SignRec struct {
 	OpIndex   int // crasher op index at release
 	// persisted: the sign-state file content at the instant the signature was released
 	PersistedOK bool
+	Seq         int // position in the common order of signatures released and votes heard (Persist.seq)
+}
+
+// HeardVote is a vote the harness handed to the node (whether or not the node survived processing it).
+type HeardVote struct {
+	Seq  int
+	Vote *types.Vote
 }
 
 func (r SignRec) String() string {
@@ -375,6 +387,7 @@ func (j *journalPV) SignVote(chainID string, vote *tmproto.Vote) error {
 		if bid != nil {
 			rec.BlockID = *bid
 		}
+		rec.Seq = j.n.P.nextSeq()
 		j.n.P.SignLog = append(j.n.P.SignLog, rec)
 	}
 	j.n.C.Point("sign.Vote:after")
@@ -392,6 +405,7 @@ func (j *journalPV) SignProposal(chainID string, p *tmproto.Proposal) error {
 		if bid != nil {
 			rec.BlockID = *bid
 		}
+		rec.Seq = j.n.P.nextSeq()
 		j.n.P.SignLog = append(j.n.P.SignLog, rec)
 	}
 	j.n.C.Point("sign.Proposal:after")
@@ -762,6 +776,9 @@ func (n *PNode) Fire() (fired bool, ok bool) {
 func (n *PNode) Send(msg consensus.Message, peer string) bool {
 	if !n.Alive() {
 		return false
+	}
+	if vm, ok := msg.(*consensus.VoteMessage); ok {
+		n.P.Heard = append(n.P.Heard, HeardVote{Seq: n.P.nextSeq(), Vote: vm.Vote})
 	}
 	n.CS.VerifSendPeer(msg, p2p.ID(peer))
 	return n.barrier()
